@@ -1,6 +1,7 @@
 """C06, C07: SocketCAN wire format and stream reassembly (pkg/socketcan, frame.go Validate).
 DESIGN.md 5.6, 5.7."""
 import vlib
+from checks import translate_tie
 
 _NOTE = ("Trusted: Coq 8.16.1 kernel; extraction (ExtrOcamlBasic) + OCaml 4.13.1; the hand-written models "
          "Socketcan/Wire.v, Receiver.v, Transmitter.v, validated against the code through the public API by the "
@@ -85,5 +86,7 @@ def run(res, replay=None):
             "a read list that ends without EOF is continued by (0, io.EOF) for ever (the harness's reader does so)",
         ],
     }[pid]
+    if pid == "C06":
+        translate_tie.run_tie(res, ["wire"])
     vlib.standard_run(res, "socketcan", harness_args(pid, res.tier, res.seed), "socketcan", RULES[pid], assumptions,
                       exhaustive=False, timeout=3000 if res.tier == "thorough" else 900)
